@@ -69,7 +69,8 @@ def close(e, g):
 
 
 def cls_sig(kind, cls):
-    return "e2e/%s/%s" % (kind, "+".join(sorted(set(c for c in cls.split(",") if c))) or "plain")
+    # labels "grant:…" only switch on a latitude of the comparison; they are not deviation classes
+    return "e2e/%s/%s" % (kind, "+".join(sorted(set(c for c in cls.split(",") if c and not c.startswith("grant:")))) or "plain")
 
 
 # ---------------------------------------------------------------- metrics (suite e2e_metrics; spec lean/SigModel/Spec/Metrics.lean)
@@ -413,7 +414,7 @@ def compare(impl, model):
                         gr[k] = ";".join(e if (e == "none" or close(e, g)) else g for e, g in zip(ev_, gv_))
             # events lacking a by-field: the statement does not say whether they form a group; an extra
             # group with the empty key is accepted
-            if "by-field-sparse" in cls:
+            if "grant:empty-by-key" in cls.split(","):
                 for k in list(gr):
                     if k not in er and "" in unhex(k).split("\x1f"):
                         del gr[k]
